@@ -200,7 +200,12 @@ pub fn check_iup(ctx: &mut Ctx, case: &IupCase, origin: &str) -> Option<Vec<Glyp
     }
     if mixed {
         ctx.count("iup_calls_with_mixed_contour", 1);
-        ctx.nontrivial(case.digest());
+        // the enumerated sub-space is huge: keep every 16th digest of it
+        // (events.iup_calls_with_mixed_contour has the full count)
+        let dg = case.digest();
+        if origin != "exhaustive" || dg & 0xf == 0 {
+            ctx.nontrivial(dg);
+        }
         if n <= 12 {
             let mut pat = Digest::new();
             for d in &out {
@@ -287,7 +292,6 @@ pub fn run_exhaustive(ctx: &mut Ctx) {
     if thorough {
         exhaustive_n(ctx, 5, true, &mut counter);
     }
-    ctx.exhaustive = Some(true);
     ctx.extra.insert(
         "iup_exhaustive_space".into(),
         json!({"points_per_contour": if thorough {"1..=5"} else {"1..=4"}, "tolerances": TOLS,
@@ -424,7 +428,7 @@ pub fn gen_deltas(rng: &mut Rng, coords: &[(i32, i32)], ends: &[usize], tol: f64
 }
 
 pub fn run_random(ctx: &mut Ctx) {
-    let n_cases = ctx.tier.pick(40_000usize, 400_000);
+    let n_cases = ctx.tier.pick(40_000usize, 800_000);
     for i in 0..n_cases {
         if !ctx.mine(i) {
             continue;
